@@ -92,11 +92,6 @@ def run_property(prop, repo, tier, replay=None, quiet=False):
     try:
         out = facts.build(repo, "quick", log=log)
         units = facts.load(out)
-        if tier == "thorough":
-            out2 = facts.build(repo, "tests", log=log)
-            units_t = facts.load(out2)
-            for k, v in units_t.items():
-                units.setdefault(k, v)
     except facts.BuildError as e:
         print(f"BUILD-FAILED property={prop}: {e}")
         print(f"VIOLATION property={prop} replay=none (the working tree could not be analysed; an unchecked property never passes)")
@@ -149,6 +144,15 @@ def run_property(prop, repo, tier, replay=None, quiet=False):
         p = _write_replay(prop, i, o.to_json())
         print(f"FAIL rule={o.rule} key={o.key} at {o.where}: {o.detail}")
         print(f"VIOLATION property={prop} replay={p}")
+    if tier == "thorough" and not replay:
+        st = selftest(prop, repo, log)
+        ctx.selftest = st
+        for row in st:
+            print(f"SELFTEST property={prop} seeded={row['seeded']} {row['result']}" + (f" new-violations={row['new_violations']}" if "new_violations" in row else ""))
+            if row["result"] == "MISSED":
+                print(f"CHECKER-SELFTEST-FAILED property={prop} seeded={row['seeded']}: a change that is known to break {prop} "
+                      f"(demonstrated by execution, see seeded/{row['seeded']}/) is no longer reported; the check cannot be trusted")
+                rc = rc or 2
     _write_evidence(evidence_path, prop, tier, seed, ctx, violations, known_hits, getattr(mod, "EXPLANATION", ""), time.time() - t0, log,
                     assumptions=getattr(mod, "ASSUMPTIONS", []))
     if not quiet:
@@ -158,6 +162,58 @@ def run_property(prop, repo, tier, replay=None, quiet=False):
         print(f"{prop}: obligations={n} discharged={nd} reviewed-safe={nr} known-findings={len(known_hits)} violations={len(violations)} "
               f"bodies={len(prog.bodies)} wall={time.time() - t0:.1f}s")
     return rc
+
+
+def selftest(prop, repo, log):
+    """Thorough tier: sensitivity self-test. Every seeded change that is recorded as breaking `prop` (seeded/<id>/meta.json
+    lists the properties whose check must report it) is applied to a scratch copy of the *current working tree* (outside /repo
+    and /verif, removed afterwards), the copy is analysed (never run) and the check must report at least one violation that
+    is not reported on the unchanged tree. A patch that no longer applies to the current tree is skipped, not failed."""
+    import shutil
+    import subprocess
+    import tempfile
+    rows = []
+    sd = os.path.join(VERIF, "seeded")
+    if not os.path.isdir(sd):
+        return rows
+    base_keys = None
+    for idn in sorted(os.listdir(sd)):
+        mp = os.path.join(sd, idn, "meta.json")
+        if not os.path.exists(mp):
+            continue
+        meta = json.load(open(mp))
+        if prop not in meta.get("must_be_caught_by", []):
+            continue
+        if base_keys is None:
+            base_keys = _violation_keys(prop, facts.load(facts.build(repo, "quick", log=log)))
+        scratch = tempfile.mkdtemp(prefix=f"osq-selftest-{prop}-{idn}-")
+        try:
+            dst = os.path.join(scratch, "tree")
+            shutil.copytree(repo, dst, symlinks=True, ignore=shutil.ignore_patterns(".git", "target"))
+            a = subprocess.run(["git", "apply", "--unsafe-paths", os.path.join(sd, idn, "patch.diff")], cwd=dst, capture_output=True, text=True)
+            if a.returncode != 0:
+                rows.append({"seeded": idn, "result": "SKIPPED (patch does not apply to the current tree)"})
+                continue
+            try:
+                keys = _violation_keys(prop, facts.load(facts.build(dst, "quick", log=log)))
+            except facts.BuildError as e:
+                rows.append({"seeded": idn, "result": "SKIPPED (patched copy does not compile: " + str(e)[:120] + ")"})
+                continue
+            new = sorted(keys - base_keys)
+            rows.append({"seeded": idn, "result": "CAUGHT" if new else "MISSED", "new_violations": len(new), "keys": new[:5]})
+        finally:
+            shutil.rmtree(scratch, ignore_errors=True)
+    return rows
+
+
+def _violation_keys(prop, units):
+    prog = Program(units)
+    ctx = Ctx(prog, prop, "quick")
+    importlib.import_module(f"osq.rules.{prop.lower()}").run(ctx)
+    keys = {o.key for o in ctx.obs if o.verdict == "violation"}
+    keys |= {f"COVERAGE-LOST|{r}|{w}" for (r, w, e, f) in ctx.floors if f < e}
+    keys |= {f"ANCHOR-LOST|{r}|{w}" for (r, w) in ctx.anchors_lost}
+    return keys
 
 
 def _write_replay(prop, i, payload):
@@ -213,6 +269,7 @@ def _write_evidence(path, prop, tier, seed, ctx, violations, known_hits, explana
                                  "contracts of bytes, aead, tokio-util, futures as read in their cached sources"],
                 "exhaustive": True,
                 "notes": ctx.notes + log,
+                **({"selftest": ctx.selftest} if getattr(ctx, "selftest", None) is not None else {}),
             },
             "assumptions": assumptions or [],
             "wall_s": round(wall, 2),
